@@ -113,7 +113,7 @@ def prepare(log):
             raise SystemExit("cannot build tools/go2lean:\n" + out)
         st["tools_hash"] = toolh
         st.pop("tree_hash", None)
-    need = st.get("tree_hash") != th or not all(os.path.exists(os.path.join(BUILD, b)) for b in ("edgo", "edgo_purego")) \
+    need = st.get("tree_hash") != th or not all(os.path.exists(os.path.join(BUILD, b)) for b in ("edgo", "edgo_purego", "edgo_386")) \
         or not os.path.exists(os.path.join(LEAN, ".lake", "build", "bin", "edmodel"))
     if not need:
         return st
@@ -132,11 +132,12 @@ def prepare(log):
     hdir = os.path.join(ROOT, "harness")
     if os.path.exists(os.path.join(REPO, "go.sum")):
         open(os.path.join(hdir, "go.sum"), "wb").write(open(os.path.join(REPO, "go.sum"), "rb").read())
-    for name, tags in (("edgo", "verif"), ("edgo_purego", "verif,purego")):
+    for name, tags, arch in (("edgo", "verif", None), ("edgo_purego", "verif,purego", None), ("edgo_386", "verif", "386")):
         outp = os.path.join(BUILD, name)
         if os.path.exists(outp):
             os.remove(outp)
-        rc, out, dt = sh(["go", "build", "-tags", tags, "-overlay", ov, "-o", outp, "./cmd/edgo"], cwd=hdir, env=GOENV)
+        rc, out, dt = sh(["go", "build", "-tags", tags, "-overlay", ov, "-o", outp, "./cmd/edgo"], cwd=hdir,
+                         env=dict(GOENV, GOARCH=arch) if arch else GOENV)
         st.setdefault("harness", {})[name] = {"rc": rc, "out": out[-4000:]}
         log(f"build {name} rc={rc} {dt:.1f}s")
     # model driver
@@ -352,6 +353,28 @@ def run_generated(pid, tier, seed, st, log, rounds=1):
                 disagreeing.append((r, dis))
         if failing:
             break
+        # the same cases on a 32-bit build of the real code (GOARCH=386, runs on this kernel): `int`/`uint` are 32 bits
+        # wide there, the model fixes them at 64 -- an operation whose result depends on that width breaks the property
+        # on one of the two platform families.  quick: every third case; thorough: all.
+        go386 = os.path.join(BUILD, "edgo_386")
+        if os.path.exists(go386) and st.get("harness", {}).get("edgo_386", {}).get("rc") == 0:
+            sub = cases if tier != "quick" else cases[::3]
+            res, crash = engine.run_cases(sub, go386, model_bin, want_model=want_model)
+            engine.analyse(res, with_corr=want_model)
+            stats["arch386_cases"] = stats.get("arch386_cases", 0) + len(res)
+            stats["arch386_lines"] = stats.get("arch386_lines", 0) + sum(len(r.case.lines) for r in res)
+            if crash:
+                stats["crash386"] = str(crash)
+            for r in res:
+                r.arch = "386"
+                rel = [m for m in r.mismatches if engine.relevant(pid, m)]
+                if rel:
+                    failing.append((r, rel))
+                dis = [d for d in r.disagreements if corr_relevant(pid, d[1])]
+                if dis:
+                    disagreeing.append((r, dis))
+            if failing:
+                break
     return stats, failing, disagreeing, want_model
 
 
@@ -377,6 +400,7 @@ def load_corpus(pid):
 
 def replay_obj(pid, kind, r, details, broken, seed, st):
     return {"property": pid, "kind": kind, "lines": r.case.lines if r else [], "details": details,
+            "goarch": getattr(r, "arch", "amd64") if r else "amd64",
             "impl_output": r.go if r else [], "model_output": r.model if r else [], "broken": broken,
             "seed": seed, "tree_hash": st.get("tree_hash"),
             "how_to_replay": f"python3 /verif/check.py {pid} --replay <this file>"}
@@ -384,7 +408,7 @@ def replay_obj(pid, kind, r, details, broken, seed, st):
 
 def minimise_failure(pid, r, rel, st):
     """shrink the failing case to fewer lines that still produce a relevant oracle mismatch"""
-    go_bin = os.path.join(BUILD, "edgo")
+    go_bin = os.path.join(BUILD, "edgo_386" if getattr(r, "arch", "") == "386" else "edgo")
 
     def pred(lines):
         pr = gens.Prog(random.Random(0))
@@ -560,6 +584,8 @@ def main():
         "checker_cmd": lean["checker_cmd"] or "n/a (no Lean module registered for this property yet)",
         "trusted_base": props.TRUSTED_BASE + cfg.get("trusted_extra", []),
         "property_theorems": lean["theorems"], "axioms": lean["axioms"], "lean_modules": lean["modules"],
+        "goarch_386": {"cases": stats.get("arch386_cases", 0), "lines": stats.get("arch386_lines", 0),
+                       "note": "same generated cases on a GOARCH=386 build of the real code (32-bit int/uint), compared with the model and the oracle"},
         "programs": stats["cases"], "disagreements_checked": stats["lines"] if want_model else 0,
         "correspondence": "implementation output == Lean model output, line by line" if want_model else "model driver unavailable",
         "explanation": cfg.get("explanation", ""),
@@ -591,7 +617,7 @@ def do_replay(pid, path, st, log):
         return 1 if obj.get("broken") else 0
     pr = gens.Prog(random.Random(0))
     pr.lines = lines
-    go_bin = os.path.join(BUILD, "edgo")
+    go_bin = os.path.join(BUILD, "edgo_386" if obj.get("goarch") == "386" else "edgo")
     model_bin = os.path.join(LEAN, ".lake", "build", "bin", "edmodel")
     res, crash = engine.run_cases([pr], go_bin, model_bin, want_model=os.path.exists(model_bin))
     engine.analyse(res)
